@@ -452,11 +452,18 @@ where
             .map(|left| left.op.prio < bin_op.op.prio || left.idx == bin_op.idx)
             .unwrap_or(true)
     };
+    // A number next to an operator of higher priority is an operand of that operator.
+    let is_operand_of_prior_neighbor = |bin_op_idx: usize| {
+        let prio = bin_ops[bin_op_idx].op.prio;
+        (bin_op_idx > 0 && bin_ops[bin_op_idx - 1].op.prio > prio)
+            || (bin_op_idx + 1 < bin_ops.len() && bin_ops[bin_op_idx + 1].op.prio > prio)
+    };
     let prio_increase =
         |bin_op_node_idx: usize| match (&nodes[bin_op_node_idx], &nodes[bin_op_node_idx + 1]) {
             (DeepNode::Num(_), DeepNode::Num(_))
                 if bin_ops[bin_op_node_idx].op.is_commutative
-                    && overtakes_only_same_op(bin_op_node_idx) =>
+                    && overtakes_only_same_op(bin_op_node_idx)
+                    && !is_operand_of_prior_neighbor(bin_op_node_idx) =>
             {
                 let prio_inc = 5;
                 &bin_ops[bin_op_node_idx].op.prio * 10 + prio_inc
@@ -635,12 +642,6 @@ where
         let prio_indices = prioritized_indices(&self.bin_ops.ops, &self.nodes);
 
         let mut num_inds = prio_indices.clone();
-        let mut priorities = self
-            .bin_ops
-            .ops
-            .iter()
-            .map(|o| o.op.prio)
-            .collect::<SmallVec<[i64; N_NODES_ON_STACK]>>();
         let mut used_prio_indices = ExprIdxVec::new();
 
         let mut already_declined: SmallVec<[bool; N_NODES_ON_STACK]> =
@@ -657,7 +658,6 @@ where
                     self.nodes[num_idx] = DeepNode::Num(bin_op_result);
                     self.nodes.remove(num_idx + 1);
                     already_declined.remove(num_idx + 1);
-                    priorities.remove(num_idx);
                     // reduce indices after removed position
                     for num_idx_after in num_inds.iter_mut() {
                         if *num_idx_after > num_idx {
@@ -665,15 +665,11 @@ where
                         }
                     }
                     used_prio_indices.push(bin_op_idx);
-                } else if num_idx > 0 && num_idx < priorities.len() - 1 {
-                    if already_declined[num_idx + 1]
-                        && priorities[num_idx + 1] > priorities[num_idx]
-                    {
-                        already_declined[num_idx] = true;
-                    }
-                    if already_declined[num_idx] && priorities[num_idx] > priorities[num_idx + 1] {
-                        already_declined[num_idx + 1] = true;
-                    }
+                } else {
+                    // one of the numbers is an operand of an operator that is applied earlier
+                    // and could not be folded, hence the other one is not available either
+                    already_declined[num_idx] = true;
+                    already_declined[num_idx + 1] = true;
                 }
             } else {
                 already_declined[num_idx] = true;
@@ -703,6 +699,10 @@ where
             }
         }
         self.text = detail::unparse_raw(self.nodes(), self.bin_ops(), self.unary_op());
+        if !used_prio_indices.is_empty() {
+            // folded numbers might be foldable with their new neighbors
+            self.compile();
+        }
     }
 
     pub(super) fn new(
